@@ -69,3 +69,73 @@ Fixpoint show_steps (st : state) (chs : list (ikey * N)) (steps : list (op * out
         :: show_steps st' chs' t
   end.
 Definition tie_show (c : tie_case) := show_steps (init (fst c)) [] (snd c).
+
+(** ** property oracle (P) through the proved specification: every value the
+    implementation served is [spec_value] of the current definitions (the
+    definitions are threaded through the edits the implementation accepted; no
+    instance state of the model is consulted), and every key it returned
+    instantiates under the current definitions (canonical key, existing base) *)
+Definition spec_out_match (s : res Z) (i : out) : bool :=
+  match i with
+  | OVal v => match s with Ok w => Z.eqb v w | _ => false end
+  | OFail => match s with Fail => true | _ => false end
+  | _ => true
+  end.
+Definition child_key (par : dref) (key : list Z) : ikey :=
+  match par with
+  | ((p, []), cp) => (p ++ cp, [([], key)])
+  | ((p, its), cp) => (p, its ++ [(cp, key)])
+  end.
+(** the key a request must return under the current definitions (None: it must fail) *)
+Definition spec_getitem (d : defs) (par : dref) (pos : list Z) (kw : list (string * Z)) : option (list Z) :=
+  match par with
+  | ((p, its), cp) =>
+      match (match its with
+             | [] => Some (p ++ cp)
+             | _ => match instantiate d (p, its) with Some (b, _, _) => Some (b ++ cp) | None => None end
+             end) with
+      | Some loc =>
+          match dlookup loc d with
+          | Some n =>
+              match sn_params n with
+              | Some f =>
+                  match bind (pf_sig f) pos kw with
+                  | Some key => match instantiate d (child_key par key) with Some _ => Some key | None => None end
+                  | None => None
+                  end
+              | None => None
+              end
+          | None => None
+          end
+      | None => None
+      end
+  end.
+Definition spec_one (d : defs) (g : list (string * Z)) (o : op) (io : out) : bool :=
+  match o with
+  | OEval (k, cp) c args => spec_out_match (spec_value fuel0 d g k cp c args) io
+  | OGetItem par pos kw =>
+      match io with
+      | OHandle key => match spec_getitem d par pos kw with Some key' => zs_eqb key key' | None => false end
+      | OFail => match spec_getitem d par pos kw with Some _ => false | None => true end
+      | _ => true
+      end
+  | _ => true
+  end.
+Fixpoint spec_steps (st : state) (steps : list (op * out * obs)) : bool :=
+  match steps with
+  | [] => true
+  | (o, io, _) :: t =>
+      spec_one (st_defs st) (st_glob st) o io
+      && spec_steps (match io with ORejected => st | _ => fst (step fuel0 st o) end) t
+  end.
+Definition spec_check (c : tie_case) : bool := spec_steps (init (fst c)) (snd c).
+
+Fixpoint spec_show_steps (st : state) (steps : list (op * out * obs)) : list (option (res Z) * bool) :=
+  match steps with
+  | [] => []
+  | (o, io, _) :: t =>
+      (match o with OEval (k, cp) c args => Some (spec_value fuel0 (st_defs st) (st_glob st) k cp c args) | _ => None end,
+       spec_one (st_defs st) (st_glob st) o io)
+        :: spec_show_steps (match io with ORejected => st | _ => fst (step fuel0 st o) end) t
+  end.
+Definition spec_show (c : tie_case) := spec_show_steps (init (fst c)) (snd c).
